@@ -111,6 +111,14 @@ func (a *vpRecApp) EndBlock(req abci.RequestEndBlock) abci.ResponseEndBlock {
 	vp.Assert(ok, "C05.app.the-block's-transactions-arrive-in-block-order")
 	a.ended = true
 	var resp abci.ResponseEndBlock
+	if a.w.withJoiner && req.Height == 1 {
+		// a second validator with most of the power joins (in force from height 3 on)
+		pk, err := cryptoenc.PubKeyToProto(ed25519.GenPrivKeyFromSecret([]byte("c05-joiner")).PubKey())
+		if err != nil {
+			panic(err)
+		}
+		resp.ValidatorUpdates = append(resp.ValidatorUpdates, abci.ValidatorUpdate{PubKey: pk, Power: 30})
+	}
 	if a.w.withUpdates && req.Height == 1 {
 		// the validator's power changes and the block size limit with it
 		pk, err := cryptoenc.PubKeyToProto(a.w.key.PubKey())
@@ -151,6 +159,7 @@ type vpC05World struct {
 	chain       map[int64]*types.Block // the decided block of each height
 	withUpdates bool
 	withPrune   bool
+	withJoiner  bool
 	boots       int
 }
 
@@ -315,9 +324,16 @@ func VP_C05_Pipeline_n3_crash2() { vpC05Pipeline(3, 2, true) }
 
 // C13 (hand-over): after block sync stored n blocks (with their seen commits) the switch to
 // consensus works: the last commit is rebuilt from what was stored and consensus starts at n+1.
-func vpC13Handover(n int64) {
+func vpC13Handover(n int64) { vpC13HandoverOpt(n, false) }
+
+// with a validator-set change in flight: the set of the last synced height (which signed the stored
+// seen commit) differs from the set of the height consensus starts at
+func VP_C13_Handover_n2_setchange() { vpC13HandoverOpt(2, true) }
+
+func vpC13HandoverOpt(n int64, joiner bool) {
 	vp.Stub("(*github.com/tendermint/tendermint/libs/pubsub.Server).PublishWithEvents", func() error { return nil })
 	w := vpNewC05World(false)
+	w.withJoiner = joiner
 	cs := w.boot()
 	for w.app.height < n {
 		w.commitNext(cs)
